@@ -91,7 +91,9 @@ def write_tree(root, nodes, table):
         else:
             ext = nm.rsplit(".", 1)[1] if "." in nm.strip(".") else ""
             text = content_for(ext, x) + f"// {nm} {x}\n" if ext not in ("py", "rb", "txt", "md", "") else content_for(ext, x) + f"# {nm} {x}\n"
-            with open(p, "w") as f:
+            if x == 0 and len(nm) % 3 == 0:
+                text = ""          # a file of zero bytes (an empty __init__.py, a placeholder): it has a checksum like any other
+            with open(p, "w") as f:          # (seeded change C11-26: the checksum of an empty file recorded as "")
                 f.write(text)
             table[hashlib.md5(text.encode()).hexdigest()] = (x, text)
 
